@@ -475,7 +475,15 @@ namespace svmon
             if (g.window_allocs)
               violate ("C09", "steal.allocated", "a permitted steal called allocate() %ld time(s)", g.window_allocs);
           }
-          else cov.count ("c09.elementwise");
+          else
+          {
+            cov.count ("c09.elementwise");
+            // element-wise transfer is mandatory here: the source's buffer (inline, too small, or owned by an
+            // allocator that may not be exchanged) must not become the destination's buffer
+            if (s0.data != 0 && p1.data == s0.data && (s0.size > 0 || ! s0.inlined))
+              violate ("C09", "steal.took-unstealable-buffer", "destination data() is the source's old buffer although stealing is not permitted (source inlined=%d capacity=%zu, destination N=%u, interchangeable=%d)",
+                       int (s0.inlined), s0.cap, p0.N, int (inter));
+          }
         }
         else if (interchangeable_swap (p0, s0))
         {
